@@ -1,6 +1,7 @@
 import PW.Proofs.Grid
 import PW.Proofs.SpecLemmas
 import PW.EinsumGen
+import PW.Proofs.TraceOut
 /-!
 # C04 — measurement outcomes follow the Born rule
 
@@ -24,6 +25,13 @@ theorem conditioning_keeps_weight (dims : List Nat) (p o : Nat) (hp : p < dims.l
     prob dims p (projectOn dims p o ρ) o = prob dims p ρ o :=
   prob_after_projectOn_same dims p o hp ρ
 
+/-- **Born rule at the plan level** (all `n`, all dimensions, every position): the diagonal of the
+tensor that the generated `measure_matrix` einsum exposes is `Spec.prob` = the diagonal of the
+measured subsystem's reduced density matrix -/
+theorem measure_plan_gives_born_probabilities (dims : List Nat) (p o : Nat) (hp : p < dims.length) (ρ : Tensor R) :
+    einsum (Spec.dimOf2 dims) (measureMatrix dims.length [p]).1 (measureMatrix dims.length [p]).2 [ρ] [o, o]
+      = Spec.prob dims p ρ o := measureMatrix_diagonal_is_prob dims p o hp ρ
+
 /-- the string that exposes a subsystem for measurement is the partial-trace string -/
 theorem measure_matrix_is_trace_out (n : Nat) (meas : List Nat) : measureMatrix n meas = traceOutMatrix n meas := rfl
 theorem measure_vector_is_trace_out (n : Nat) (meas : List Nat) : measureVector n meas = traceOutVector n meas := rfl
@@ -35,5 +43,6 @@ end PW.Props.C04
 
 #print axioms PW.Props.C04.impossible_after_conditioning
 #print axioms PW.Props.C04.conditioning_keeps_weight
+#print axioms PW.Props.C04.measure_plan_gives_born_probabilities
 #print axioms PW.Props.C04.measure_matrix_is_trace_out
 #print axioms PW.Props.C04.measure_vector_is_trace_out
